@@ -38,7 +38,9 @@ RESEED_MAX = 2
 BUDGET_S = {'quick': 3600, 'thorough': 14400}
 # generator kinds whose class overrides next() (not only readfunc)
 NEXT_KINDS = ['nonnull', 'audited']
-NEXT_ROUTES = {'audited': ['m.new']}               # creation family: routes of a next()-overriding kind (default: every route)
+NEXT_ROUTES = {'audited': ['m.new'], 'count': ['m.new', 'mc()']}   # creation family: routes of a next()-overriding kind (default: every route)
+# plain iterators handed to MetaModel() as its generator (round 7, C19-14): the library draws ids with next(generator)
+ITER_KINDS = ['count']
 # creation after the last strong reference to the MetaModel object was dropped
 ORPHAN_K = {'quick': 2, 'thorough': 3}
 ORPHAN_GENS = ['int', 'recuuid', 'nonnull']
@@ -236,6 +238,8 @@ def make_metamodel(kind):
         m = xtuml.MetaModel(user_classes()['NonNull']())
     elif kind == 'audited':
         m = xtuml.MetaModel(user_classes()['Audited']())
+    elif kind == 'count':
+        m = xtuml.MetaModel(itertools.count(100))
     else:
         raise ValueError(kind)
     return m, m.id_generator
@@ -254,7 +258,7 @@ class GenRef(object):
 
     @property
     def exact(self):
-        return self.kind in ('int', 'user', 'recuuid', 'zerobased', 'nonnull', 'audited')
+        return self.kind in ('int', 'user', 'recuuid', 'zerobased', 'nonnull', 'audited', 'count')
 
     def value_at(self, i):
         if self.kind in ('int', 'nonnull'):
@@ -265,6 +269,8 @@ class GenRef(object):
             return log[i] if i < len(log) else MISSING
         if self.kind == 'user':
             return 10 * (i + 1)
+        if self.kind == 'count':
+            return 100 + i
         if self.kind == 'zerobased':
             return i
         if self.kind == 'recuuid':
@@ -484,7 +490,7 @@ def run_schema(sub, task):
                 # (the attribute of unknown type is omitted from the call, given positionally, or given by keyword:
                 #  creation must be rejected in every case)
                 # (generators whose class overrides next(): first spelling only)
-                more = NEXT_KINDS if task[0] == 'plain' and style == styles[0] else []
+                more = NEXT_KINDS + ITER_KINDS if task[0] == 'plain' and style == styles[0] else []
                 for gen in list(gens) + more:
                     for route in routes:
                         if gen in NEXT_ROUTES and route not in NEXT_ROUTES[gen]:
@@ -626,6 +632,8 @@ def _creation(sub, case):
         sub.count('orphan_cases')
     if case['gen'] in NEXT_KINDS:
         sub.count('next_override_cases')
+    if case['gen'] in ITER_KINDS:
+        sub.count('plain_iterator_cases')
     jattrs = [(a[0], a[2], a[3]) for a in attrs]
     inst = None
     for inst_no in instance_numbers(case):
@@ -669,6 +677,7 @@ GEN_SRC = {'int': 'xtuml.IntegerGenerator()', 'uuid': 'xtuml.UUIDGenerator()', '
            'recuuid': 'RecUUID()   # UUIDGenerator subclass recording the values of readfunc',
            'nonnull': 'NonNull()   # IdGenerator subclass: readfunc counts 0, 1, 2, ...; next() (overridden) steps over the null '
                       'id; peek() shows the value next() will hand out (see user_classes in mc/props/c19.py)',
+           'count': 'itertools.count(100)   # (import itertools) a plain iterator as the generator: ids 100, 101, ...',
            'audited': 'Audited()   # UUIDGenerator subclass whose next() (overridden) appends the value it hands out to '
                       'self.issued; every defaulted id must be in g.issued'}
 
@@ -1315,6 +1324,8 @@ def run(ctx):
     ctx.require(ctx.n("reseeds") >= 500 and ctx.n('creations_after_reseed') >= 1000,
                 'too few histories that re-seed the random module (%d re-seeds, %d creations after one)' %
                 (ctx.n('reseeds'), ctx.n('creations_after_reseed')))
+    ctx.require(ctx.n('plain_iterator_cases') >= 1000, 'too few creations on a metamodel whose generator is a plain iterator (%d)'
+                % ctx.n('plain_iterator_cases'))
     ctx.require(ctx.n('next_override_cases') >= 10000 and ctx.n('next_override_history_creations') >= 1000,
                 'too few creations with a generator whose class overrides next() (%d creation cases, %d in histories)' %
                 (ctx.n('next_override_cases'), ctx.n('next_override_history_creations')))
@@ -1368,6 +1379,8 @@ def coverage(ctx):
                            clones=ctx.n('clones'), generators=NONE_GENS),
         reseed=dict(value=RESEED_VALUE, max_per_history=RESEED_MAX, reseeds=ctx.n('reseeds'),
                     creations_after_a_reseed=ctx.n('creations_after_reseed'), creations=RESEED_NEW),
+        plain_iterator_generators=dict(kinds=ITER_KINDS, creation_cases=ctx.n('plain_iterator_cases'),
+                                       what='itertools.count(100) handed to MetaModel(); defaulted ids must be 100, 101, ... in creation order'),
         next_overriding_generators=dict(kinds=NEXT_KINDS, creation_cases=ctx.n('next_override_cases'),
                                         creations_in_histories=ctx.n('next_override_history_creations'),
                                         history_menus=['plain', 'iter'], creation_routes_restricted=NEXT_ROUTES,
